@@ -70,7 +70,7 @@ def check_polar(ctx, KL, b, tol_rel, tag, wit):
 
 
 def check_cartesian(ctx, KL, rng, max_nr):
-    ri = float(rng.choice([0.05, 0.1, 0.2, 0.25, 0.33, 0.5, 0.8, rng.uniform(0.05, 0.8)]))
+    ri = float(rng.choice([0.05, 0.1, 0.2, 0.25, 0.33, 0.5, 0.8, rng.uniform(0.05, 0.8), 1e-8, 1e-3]))
     nr = int(rng.integers(10, max_nr + 1))
     dim = int(rng.choice([16, 17, 24, 31, 32, 33, 47, 48, 63, 64, 65, 100, 128]))
     npp = int(2 * np.pi * nr)
@@ -81,7 +81,8 @@ def check_cartesian(ctx, KL, rng, max_nr):
     wit = {"ri": ri, "nr": nr, "nmax": nmax, "dim": dim, "mask": repr(mask_arg)}
     ctx.count("cartesian_renderings")
     ctx.case("make_kl", key=(ri, nr, nmax, dim, mask), nontrivial=True, sample=wit)
-    kl, var, pupil, base = quiet(KL.make_kl, nmax, dim, ri=ri, nr=nr, mask=mask_arg)
+    extra_kw = {"outerscale": float(rng.uniform(1, 20))} if rng.random() < 0.3 else {}     # ignored for Kolmogorov statistics
+    kl, var, pupil, base = quiet(KL.make_kl, nmax, dim, ri=ri, nr=nr, mask=mask_arg, **extra_kw)
     par = "odd" if dim % 2 else "even"
     if not ctx.check(np.shape(kl) == (nmax, dim, dim) and np.shape(pupil) == (dim, dim) and len(var) == nmax, "make_kl:shapes",
                      "shapes %s %s %s" % (np.shape(kl), np.shape(pupil), np.shape(var)), wit):
@@ -89,7 +90,7 @@ def check_cartesian(ctx, KL, rng, max_nr):
     c = (np.arange(dim) - (dim - 1) / 2.0) / (dim / 2.0)
     X, Y = np.meshgrid(c, c)          # x along axis 1 (columns), y along axis 0 (rows)
     R2 = X * X + Y * Y
-    amb = (np.abs(R2 - 1.0) <= 1e-12) | (np.abs(R2 - ri * ri) <= 1e-12)
+    amb = (np.abs(R2 - 1.0) <= 1e-12) | (np.abs(R2 - ri * ri) <= 8 * 2.3e-16 * np.maximum(R2, ri * ri))
     ann = (R2 >= ri * ri) & (R2 <= 1.0)
     ctx.check(bool(np.all((pupil == ann.astype(float)) | amb)), "make_kl:pupil_is_not_the_annulus_indicator:" + par,
               "%d pixels of the returned pupil differ from [ri^2 <= x^2+y^2 <= 1]" % int(((pupil != ann) & ~amb).sum()), wit)
@@ -147,7 +148,10 @@ def run(ctx, spec):
             if rep:
                 ctx.count("repeat_generations_same_grid")
             ctx.case("gkl_basis", key=(ri, nr, nf, rep), nontrivial=True, sample=wit)
-            b = quiet(KL.gkl_basis, ri, nr, None, nf)
+            if rep == 1:      # an outer scale passed along with a Kolmogorov tag must not change the statistics
+                b = quiet(KL.gkl_basis, ri, nr, None, nf, str(rng.choice(["kolstf", "kolmogorov"])), float(rng.uniform(1, 20)))
+            else:
+                b = quiet(KL.gkl_basis, ri, nr, None, nf)
             ctx.check(int(b["np"]) == 5 * nr, "gkl_basis:native_grid", "native azimuthal sampling is %s, expected 5 nr" % b["np"], wit)
             check_polar(ctx, KL, b, 1e-10, "native_grid" + (":repeat" if rep else ""), wit)
     for c in range(spec["cart"]):
